@@ -71,8 +71,9 @@ type Snap struct {
 	Supply sdk.Int
 	Digest string
 
-	Problems []string // undecodable / unexpected keys or values
-	NKeys    int
+	Problems    []string // undecodable / unexpected keys or values
+	NKeys       int
+	UnknownKeys int
 }
 
 func bkey(service string, provider []byte) string { return service + "\x00" + hexs(provider) }
@@ -367,7 +368,9 @@ func (s *Snap) decode(k, v []byte) {
 		}
 		s.OwnerEarned[hexs(body)] = c.Amount
 	default:
-		s.problem("unknown key prefix %#x", k[0])
+		// a record kind this observer does not know (e.g. an index added by a later version):
+		// counted, not judged
+		s.UnknownKeys++
 	}
 }
 
